@@ -83,6 +83,13 @@ func Predict(cs *ClientSpec) (preds []Pred, complete bool, closes bool, resets b
 				return preds, false, closes, resets
 			}
 			if ps.Trunc != nil && *ps.Trunc < model.HeaderLen+len(clear) {
+				for _, o := range cs.Ops[i+1:] {
+					if o.Kind == "send" || o.Kind == "raw" {
+						// more bytes follow and complete the cut packet with something else:
+						// outside the model from here on
+						return preds, false, closes, resets
+					}
+				}
 				pr.Kind, pr.Why = "truncated", "stream ends inside the packet"
 				preds = append(preds, pr)
 				// whatever follows is appended to the cut packet: outside the model
